@@ -12,6 +12,60 @@ from mc import dbe
 from props import fmtspecs
 
 
+def _relayout_array(a, mode):
+    """Same logical array in another memory layout (Fortran order, or a strided view into a larger buffer)."""
+    if not isinstance(a, np.ndarray) or a.ndim == 0 or a.size == 0:
+        return a
+    if mode == "F":
+        return np.asfortranarray(a) if a.ndim >= 2 else a[::-1].copy()[::-1]  # 1-D: negative-stride view
+    big = np.zeros(a.shape[:-1] + (2 * a.shape[-1],), dtype=a.dtype)
+    big[..., ::2] = a
+    return big[..., ::2]
+
+
+def relayout(obj, mode):
+    """Every array reachable from the object's public attributes in the given memory layout; values are unchanged."""
+    import attrs
+
+    if mode == "C":
+        return obj
+
+    def conv(v):
+        if isinstance(v, np.ndarray):
+            return _relayout_array(v, mode)
+        if isinstance(v, dict):
+            return {k: conv(x) for k, x in v.items()}
+        if attrs.has(type(v)) and type(v).__name__ in ("Cube", "MolecularOrbitals"):
+            return attrs.evolve(v, **{a.name.lstrip("_"): conv(getattr(v, a.name.lstrip("_"))) for a in attrs.fields(type(v)) if isinstance(getattr(v, a.name.lstrip("_")), (np.ndarray, dict))})
+        return v
+
+    changes = {}
+    for a in attrs.fields(type(obj)):
+        name = a.name.lstrip("_")
+        if a.name.startswith("_"):
+            continue  # charge / nelec / spinpol / atcorenums keep their (possibly lazy) private state
+        v = getattr(obj, name)
+        nv = conv(v)
+        if nv is not v:
+            changes[name] = nv
+    return attrs.evolve(obj, **changes) if changes else obj
+
+
+class _WithLayout:
+    """A format spec with one more axis: the memory layout of the arrays handed to the writer."""
+
+    def __init__(self, spec):
+        self._spec = spec
+        self.space = list(spec.space) + [("array_layout", ["C", "F", "strided"])]
+
+    def __getattr__(self, name):
+        return getattr(self._spec, name)
+
+    def build(self, case, seed):
+        obj, dkw, lkw = self._spec.build({k: v for k, v in case.items() if k != "array_layout"}, seed)
+        return relayout(obj, case.get("array_layout", "C")), dkw, lkw
+
+
 def all_specs():
     specs = dict(fmtspecs.SIMPLE)
     try:
@@ -20,7 +74,7 @@ def all_specs():
         specs.update(wfnspecs.SPECS)
     except ImportError:
         pass
-    return specs
+    return {name: _WithLayout(spec) for name, spec in specs.items()}
 
 
 def snapshot(obj, depth=0):
